@@ -14,6 +14,10 @@
      unhygienic_leaks  a field that is neither assigned on acquire nor cleared on
                        release (nor equal-by-construction)  ->  two pool histories
                        are distinguishable through that field
+     path_dependent_acquire_leaks
+                       ... and so is a field that acquire assigns on every path, but
+                       differently on paths selected by the recycled object's own state
+                       (KDep: "if the buffer grew too big, re-allocate, else reset")
 
    Values are abstracted to their VISIBLE content (a list of tokens: the zero
    value, a nil pointer and an empty/truncated slice are all []).  Go cannot read
@@ -26,7 +30,11 @@ Open Scope string_scope.
 (* state of a field after a straight-line region of code *)
 Inductive kind := KZero    (* assigned its zero value: nil, false, 0, T{} *)
                 | KTrunc   (* x.f = x.f[:0] *)
-                | KVal.    (* assigned something else *)
+                | KVal     (* assigned something else *)
+                | KDep.    (* assigned on every path, but to DIFFERENT things on paths that are selected
+                              by a condition on the recycled object itself (if cap(x.f) > max { x.f =
+                              make(T, n) } else { x.f = x.f[:0] }): what the next user finds depends on
+                              how the object was used before *)
 (* what New() stores in a field *)
 Inductive nkind := NZero            (* not mentioned in the literal *)
                  | NEmpty           (* make(T, 0, c) *)
@@ -53,11 +61,36 @@ Definition new_visible_empty (s : pstruct) (f : string) : bool :=
 
 Definition mem (f : string) (l : list string) : bool := existsb (String.eqb f) l.
 
-(* a field is safe if it is assigned on acquire, or is definitely cleared at the Put
-   AND New() also leaves it visibly empty, or it is a declared capacity field
-   (its residual content is proved irrelevant separately, in the model) *)
-Definition field_ok (capacity : list string) (s : pstruct) (f : string) : bool :=
+(* what the acquire code guarantees about a field.  A path-dependent assignment guarantees nothing:
+   it is abstracted to its worst case, the field keeps what the previous user left there (so every
+   path through a Get has to end in the same state for the field to count as assigned) *)
+Definition acq_kind (s : pstruct) (f : string) : option kind :=
   match lookup f (ps_acquire s) with
+  | Some KDep => None
+  | k => k
+  end.
+
+Lemma acq_kind_not_dep s f : acq_kind s f <> Some KDep.
+Proof. unfold acq_kind. destruct (lookup f (ps_acquire s)) as [[| | |]|]; discriminate. Qed.
+
+Lemma acq_kind_some s f k : acq_kind s f = Some k -> lookup f (ps_acquire s) = Some k /\ k <> KDep.
+Proof.
+  unfold acq_kind. destruct (lookup f (ps_acquire s)) as [[| | |]|]; intros H; try discriminate;
+    injection H as <-; split; try reflexivity; discriminate.
+Qed.
+
+Lemma acq_kind_none s f : acq_kind s f = None <->
+  (lookup f (ps_acquire s) = None \/ lookup f (ps_acquire s) = Some KDep).
+Proof.
+  unfold acq_kind. destruct (lookup f (ps_acquire s)) as [[| | |]|]; split; intros H; auto;
+    try discriminate; destruct H as [H|H]; discriminate.
+Qed.
+
+(* a field is safe if it is assigned on acquire - the same way on every path through the Get -,
+   or is definitely cleared at the Put AND New() also leaves it visibly empty, or it is a declared
+   capacity field (its residual content is proved irrelevant separately, in the model) *)
+Definition field_ok (capacity : list string) (s : pstruct) (f : string) : bool :=
+  match acq_kind s f with
   | Some _ => true
   | None =>
       match lookup f (ps_release s) with
@@ -76,7 +109,7 @@ Definition g_new (s : pstruct) : gobj :=
   fun f => match new_kind s f with NMake n => repeat 0 n | _ => [] end.
 (* the acquire assignments, with the assigned values coming from the caller's inputs *)
 Definition g_acquire (s : pstruct) (inp : gobj) (o : gobj) : gobj :=
-  fun f => match lookup f (ps_acquire s) with
+  fun f => match acq_kind s f with
            | Some KVal => inp f
            | Some _ => []
            | None => o f
@@ -97,7 +130,7 @@ Inductive pooled (s : pstruct) : gobj -> Prop :=
     pooled s o -> pooled s (g_release s (user (g_acquire s inp o))).
 
 Definition clean_field (s : pstruct) (o : gobj) (f : string) : Prop :=
-  lookup f (ps_acquire s) = None -> o f = g_new s f.
+  acq_kind s f = None -> o f = g_new s f.
 
 Lemma mem_In f l : mem f l = true <-> In f l.
 Proof.
@@ -124,13 +157,14 @@ Proof.
   - unfold hygienic in Hh. rewrite forallb_forall in Hh. specialize (Hh f Hf).
     unfold field_ok in Hh. rewrite Hacq in Hh.
     unfold g_release.
-    destruct (lookup f (ps_release s)) as [[| |]|] eqn:Hrel.
+    destruct (lookup f (ps_release s)) as [[| | |]|] eqn:Hrel.
     + apply orb_true_iff in Hh. destruct Hh as [Hn|Hm].
       * symmetry. apply g_new_empty. exact Hn.
       * apply mem_In in Hm. contradiction.
     + apply orb_true_iff in Hh. destruct Hh as [Hn|Hm].
       * symmetry. apply g_new_empty. exact Hn.
       * apply mem_In in Hm. contradiction.
+    + apply mem_In in Hh. contradiction.
     + apply mem_In in Hh. contradiction.
     + apply mem_In in Hh. contradiction.
 Qed.
@@ -142,14 +176,14 @@ Theorem hygiene_sound cap s :
   g_acquire s inp o f = g_acquire s inp (g_new s) f.
 Proof.
   intros Hh o Hp inp f Hf Hcap. unfold g_acquire.
-  destruct (lookup f (ps_acquire s)) as [[| |]|] eqn:Hacq; try reflexivity.
+  destruct (acq_kind s f) as [[| | |]|] eqn:Hacq; try reflexivity.
   apply (pooled_clean cap s Hh o Hp f Hf Hcap). exact Hacq.
 Qed.
 
 (* the model can express the failure: a field that is neither assigned on acquire
    nor cleared on release carries a value from one user to the next *)
 Theorem unhygienic_leaks s f :
-  lookup f (ps_acquire s) = None ->
+  acq_kind s f = None ->
   lookup f (ps_release s) = None ->
   exists o, pooled s o /\ forall inp, g_acquire s inp o f <> g_acquire s inp (g_new s) f.
 Proof.
@@ -164,8 +198,23 @@ Qed.
 
 (* a field cleared on release but visibly non-empty in New() (e.g. make(T, 4)) also
    distinguishes a recycled object from a new one *)
+(* in particular a Get one of whose paths skips the reset (a size guard: "too big, re-allocate
+   instead of truncating") on a struct that is not cleared before its Put - buffer.Pool.Get *)
+Corollary path_dependent_acquire_leaks s f :
+  lookup f (ps_acquire s) = Some KDep ->
+  lookup f (ps_release s) = None ->
+  field_ok [] s f = false /\
+  exists o, pooled s o /\ forall inp, g_acquire s inp o f <> g_acquire s inp (g_new s) f.
+Proof.
+  intros Hacq Hrel.
+  assert (Hk : acq_kind s f = None) by (apply acq_kind_none; right; exact Hacq).
+  split.
+  - unfold field_ok. rewrite Hk, Hrel. reflexivity.
+  - apply unhygienic_leaks; assumption.
+Qed.
+
 Theorem cleared_but_new_nonempty_leaks s f n :
-  lookup f (ps_acquire s) = None ->
+  acq_kind s f = None ->
   (lookup f (ps_release s) = Some KZero \/ lookup f (ps_release s) = Some KTrunc) ->
   new_kind s f = NMake (S n) ->
   exists o, pooled s o /\ forall inp, g_acquire s inp o f <> g_acquire s inp (g_new s) f.
